@@ -568,11 +568,54 @@ func thresholdCase(c *ev.Case) {
 	target := rng.Pick(4095, 4096, 4097, 4098, 4100, 5000)
 	// choose target distinct low values
 	var lows []uint32
-	switch rng.Intn(3) {
-	case 0: // contiguous
-		b := rng.Intn(65536 - target)
+	runThenExtras := 0 // > 0: the first runThenExtras values (a run) keep their place in front of the rest
+	kind := rng.Intn(4)
+	forceEdge := -1
+	if c.Index%8 == 3 || c.Index%8 == 7 { // by index: a full run flush with the top (3) / bottom (7) of the bucket, then the converting value
+		kind, forceEdge = 3, c.Index%8
+		if target <= 4096 {
+			target = 4097
+		}
+	}
+	switch kind {
+	case 0: // contiguous, also flush with either end of the bucket
+		b := rng.Pick(0, 65536-target, rng.Intn(65536-target+1))
 		for i := 0; i < target; i++ {
 			lows = append(lows, uint32(b+i))
+		}
+		if b == 65536-target {
+			c.Add("threshold_run_ends_at_0xFFFF", 1)
+		}
+	case 3: // a run of exactly 4096 values arrives first (in any order), the values that convert the bucket come after it
+		n := 4096
+		if target < n {
+			n = target
+		}
+		b := rng.Pick(0, 65536-n, 65536-n, rng.Intn(65536-n+1))
+		if forceEdge == 3 {
+			b = 65536 - n
+		} else if forceEdge == 7 {
+			b = 0
+		}
+		for i := 0; i < n; i++ {
+			lows = append(lows, uint32(b+i))
+		}
+		for len(lows) < target {
+			v := uint32(rng.Intn(65536))
+			if int(v) < b || int(v) >= b+n {
+				dup := false
+				for _, w := range lows[n:] {
+					dup = dup || w == v
+				}
+				if !dup {
+					lows = append(lows, v)
+				}
+			}
+		}
+		runThenExtras = n
+		c.Add("threshold_full_run_then_converting_value", 1)
+		if b == 65536-n && target > n {
+			c.Add("threshold_full_run_at_top_of_bucket_then_converting_value", 1)
 		}
 	case 1: // strided
 		st := rng.Range(2, 13)
@@ -587,18 +630,22 @@ func thresholdCase(c *ev.Case) {
 		sort.Slice(lows, func(i, j int) bool { return lows[i] < lows[j] })
 	}
 	order := rng.Intn(3)
+	part := lows
+	if runThenExtras > 0 {
+		part = lows[:runThenExtras]
+	}
 	switch order {
 	case 1:
-		for i, j := 0, len(lows)-1; i < j; i, j = i+1, j-1 {
-			lows[i], lows[j] = lows[j], lows[i]
+		for i, j := 0, len(part)-1; i < j; i, j = i+1, j-1 {
+			part[i], part[j] = part[j], part[i]
 		}
 	case 2:
-		p := rng.Perm(len(lows))
-		n := make([]uint32, len(lows))
+		p := rng.Perm(len(part))
+		n := make([]uint32, len(part))
 		for i, j := range p {
-			n[i] = lows[j]
+			n[i] = part[j]
 		}
-		lows = n
+		copy(part, n)
 	}
 	for i, l := range lows {
 		if !s.add(hi | l) {
@@ -1074,6 +1121,8 @@ func main() {
 	r.Assume("the set model (Go map + sort) is the specification; container kinds are not inspected, bucket fill levels are tracked in the model (in counter names a 'dense_bucket' is one that has held more than 4096 members since it was last empty)")
 	r.Cases("mix", r.N(3000, 60000), ev.Opt{HangViolation: true}, mixCase)
 	r.Cases("threshold", r.N(60, 1500), ev.Opt{HangViolation: true}, thresholdCase)
+	r.Require("threshold_full_run_at_top_of_bucket_then_converting_value", 7)
+	r.Require("threshold_full_run_then_converting_value", 14)
 	r.Cases("churn", r.N(3000, 100000), ev.Opt{HangViolation: true}, churnCase)
 	r.Cases("dense", r.N(160, 4000), ev.Opt{HangViolation: true}, denseCase)
 	r.Cases("many-buckets", r.N(120, 2000), ev.Opt{HangViolation: true}, manyCase)
